@@ -201,8 +201,8 @@ theorem checkWkc_ok (p q : Pdu) (k : Nat) (h : p.checkWkc k = .ok q) : q = p ∧
   · rw [if_neg hw] at h; cases h
 
 /-- A status response reports state `d`: it was answered by exactly one device (working counter
-    1), its AL status decodes and the state nibble is `d`. -/
-def Reports (d : Nat) (p : Pdu) : Prop := p.wkc = 1 ∧ ∃ c, unpackAlControl p.data = .ok c ∧ c.state = d
+    1), its AL status decodes, the state nibble is `d` and the error indication is clear. -/
+def Reports (d : Nat) (p : Pdu) : Prop := p.wkc = 1 ∧ unpackAlControl p.data = .ok ⟨d, false⟩
 
 theorem checkStates_true (d : Nat) (ps : List Pdu) (h : checkStates d ps = .ok true) : ∀ p ∈ ps, Reports d p := by
   induction ps with
@@ -216,13 +216,19 @@ theorem checkStates_true (d : Nat) (ps : List Pdu) (h : checkStates d ps = .ok t
       split at h
       · simp at h
       · rename_i c hc
-        by_cases hs : c.state ≠ d
-        · rw [if_pos hs] at h; simp at h
-        · rw [if_neg hs] at h
-          intro r hr
-          rcases List.mem_cons.1 hr with rfl | hr
-          · exact ⟨hw, c, hc, by simpa using hs⟩
-          · exact ih h r hr
+        by_cases he : c.error = true
+        · rw [if_pos he] at h; simp at h
+        · rw [if_neg he] at h
+          by_cases hs : c.state ≠ d
+          · rw [if_pos hs] at h; simp at h
+          · rw [if_neg hs] at h
+            intro r hr
+            rcases List.mem_cons.1 hr with rfl | hr
+            · refine ⟨hw, ?_⟩
+              rw [hc]
+              cases c with
+              | mk st er => simp at he hs; simp [he, hs]
+            · exact ih h r hr
 
 theorem checkStates_false (d : Nat) (ps : List Pdu) (h : checkStates d ps = .ok false) : ∃ p ∈ ps, ¬ Reports d p := by
   induction ps with
@@ -236,15 +242,18 @@ theorem checkStates_false (d : Nat) (ps : List Pdu) (h : checkStates d ps = .ok 
       split at h
       · simp at h
       · rename_i c hc
-        by_cases hs : c.state ≠ d
-        · refine ⟨q, by simp, ?_⟩
-          rintro ⟨_, c', hc', hd⟩
-          rw [hc] at hc'
-          cases hc'
-          exact hs hd
-        · rw [if_neg hs] at h
-          obtain ⟨r, hr, hn⟩ := ih h
-          exact ⟨r, by simp [hr], hn⟩
+        by_cases he : c.error = true
+        · rw [if_pos he] at h; simp at h
+        · rw [if_neg he] at h
+          by_cases hs : c.state ≠ d
+          · refine ⟨q, by simp, ?_⟩
+            rintro ⟨_, hc'⟩
+            rw [hc] at hc'
+            cases hc'
+            exact hs rfl
+          · rw [if_neg hs] at h
+            obtain ⟨r, hr, hn⟩ := ih h
+            exact ⟨r, by simp [hr], hn⟩
 
 /-- Frames of a round that passed completely: the trace starts with one response per member of
     every frame, in order, each reporting the state; exactly those frames were sent. -/
